@@ -47,11 +47,13 @@ type rtStep struct {
 	Missing []string `json:"missing"`
 }
 
-func runReadThrough(id, kind, repl string, steps []rtStep, w *hx.Writer) (drift, compared int) {
+func runReadThrough(id string, variant int, kind, repl string, steps []rtStep, w *hx.Writer) (drift, compared int) {
 	u := NewUniverse([]string{"p", "q", "r"})
 	log := &CallLog{}
 	f := NewModelBackend("F", u, log)
 	s := NewModelBackend("S", u, log)
+	f.Stream = []string{"", "reader", "chunks"}[variant%3]
+	s.Stream = []string{"", "reader", "chunks"}[(variant/3)%3]
 	if len(steps) > 0 {
 		for _, n := range steps[0].F0 {
 			f.Store(n, "")
@@ -89,7 +91,7 @@ func runReadThrough(id, kind, repl string, steps []rtStep, w *hx.Writer) (drift,
 			switch st.Op {
 			case "Get":
 				var data []byte
-				data, err = ba.Get(ctx, u.Digest(st.Objs[0], "")).ToByteSlice(1 << 20)
+				data, err = Consume(ba.Get(ctx, u.Digest(st.Objs[0], "")), variant/9)
 				if err == nil {
 					o["res"] = "Data"
 					if string(data) != string(u.Data(st.Objs[0])) {
@@ -165,7 +167,7 @@ func TestReadThrough(t *testing.T) {
 		if err := json.Unmarshal(line, &sc); err != nil {
 			t.Fatal(err)
 		}
-		d, c := runReadThrough(sc.ID, sc.Kind, sc.Repl, sc.Steps, w)
+		d, c := runReadThrough(sc.ID, n, sc.Kind, sc.Repl, sc.Steps, w)
 		drift += d
 		compared += c
 		n++
@@ -190,7 +192,9 @@ type recBase struct {
 	confirmed map[string]int
 }
 
-func (b *recBase) ReplicateSingle(ctx context.Context, d digest.Digest) buffer.Buffer { panic("unused") }
+func (b *recBase) ReplicateSingle(ctx context.Context, d digest.Digest) buffer.Buffer {
+	panic("unused")
+}
 func (b *recBase) ReplicateComposite(ctx context.Context, p, c digest.Digest, s slicing.BlobSlicer) buffer.Buffer {
 	panic("unused")
 }
@@ -378,7 +382,13 @@ func runReplicators(t *testing.T, id string, seed int64, coop bool) (o map[strin
 			}
 			synctest.Wait()
 		} else {
-			wg.Wait()
+			finished := make(chan struct{})
+			go func() { wg.Wait(); close(finished) }()
+			select {
+			case <-finished:
+			case <-time.After(10 * time.Second):
+				o["hang"] = true // somebody is left waiting (callers not done are reported as hanging below)
+			}
 		}
 	}
 	if coop {
